@@ -1,7 +1,7 @@
 import inspect
 import itertools
 from collections.abc import Sequence
-from functools import cached_property
+from functools import cached_property, partial
 from inspect import Parameter, Signature
 from typing import Annotated, Any
 
@@ -43,6 +43,11 @@ def _get_default(field) -> Default:
         return DefaultFactory(field.default_factory)
     if field.default is PydanticUndefined:
         return NoDefault()
+    try:
+        hash(field.default)
+    except TypeError:
+        # pydantic copies mutable default for each instance, so the declared object must not be passed explicitly
+        return DefaultFactory(partial(field.get_default, call_default_factory=False))
     return DefaultValue(field.default)
 
 
